@@ -90,6 +90,12 @@ def write_replay(prop: str, name: str, payload: dict) -> str:
 
 def finish(rep: Report) -> int:
     """Print result lines, write evidence, return the exit code."""
+    import signal
+
+    try:
+        signal.signal(signal.SIGPIPE, signal.SIG_DFL)  # `./check ... | head` must not turn into a crash
+    except Exception:
+        pass
     known = load_known()
     violations = []
     known_lines = []
